@@ -28,7 +28,7 @@ from ..load_error import (
     NoRequiredItemsLoadError,
     TypeLoadError,
 )
-from .basic_gen import ModelLoaderGen
+from .basic_gen import ModelLoaderGen, field_id_to_var_suffix
 from .crown_definitions import (
     BranchInpCrown,
     CrownPath,
@@ -132,13 +132,13 @@ class GenState(Namer):
         return Namer(self.debug_trail, self.path_to_suffix, self.parent_path)
 
     def v_field_loader(self, field_id: str) -> str:
-        return f"loader_{field_id}"
+        return f"loader_{field_id_to_var_suffix(field_id)}"
 
     def v_raw_field(self, field: InputField) -> str:
-        return f"r_{field.id}"
+        return f"r_{field_id_to_var_suffix(field.id)}"
 
     def v_field(self, field: InputField) -> str:
-        return f"f_{field.id}"
+        return f"f_{field_id_to_var_suffix(field.id)}"
 
     @property
     def parent_path(self) -> CrownPath:
@@ -615,14 +615,14 @@ class BuiltinModelLoaderGen(ModelLoaderGen):
             literal_expr = get_literal_expr(field.default.value)
             if literal_expr is not None:
                 return literal_expr
-            state.namespace.add_constant(f"dfl_{field.id}", field.default.value)
-            return f"dfl_{field.id}"
+            state.namespace.add_constant(f"dfl_{field_id_to_var_suffix(field.id)}", field.default.value)
+            return f"dfl_{field_id_to_var_suffix(field.id)}"
         if isinstance(field.default, DefaultFactory):
             literal_expr = get_literal_from_factory(field.default.factory)
             if literal_expr is not None:
                 return literal_expr
-            state.namespace.add_constant(f"dfl_{field.id}", field.default.factory)
-            return f"dfl_{field.id}()"
+            state.namespace.add_constant(f"dfl_{field_id_to_var_suffix(field.id)}", field.default.factory)
+            return f"dfl_{field_id_to_var_suffix(field.id)}()"
         raise ValueError
 
     def _gen_field_crown(self, state: GenState, crown: InpFieldCrown):
